@@ -14,7 +14,7 @@ func init() {
 	propertyRules["C10"] = []ruleFn{ruleEpochOwner, ruleTimerOwner, ruleInitArms, ruleRearm, ruleTimeoutNonNeg}
 	propertyExplain["C10"] = "Inductive argument whose obligations are all static: BlockIndex/ViewNumber are written only by the epoch writer (O-EPOCH); Timer.Reset is called only from one wrapper with (BlockIndex, ViewNumber) read at the call (O-TIMER-RESET, P-TIMER-EPOCH); in every initialiser every non-watch-only path from the epoch-writer call to a return passes the wrapper and no epoch write follows the last arming (M-INIT-ARMS); every admitted timeout path re-arms (M-REARM); durations handed to the wrapper are non-negative by construction where measured quantities are subtracted (A-TIMEOUT-NONNEG). Adequacy of the durations and that the injected timer fires are not decided."
 	propertyRules["C12"] = []ruleFn{ruleStaleIndex, ruleAnswer, ruleRejectSet, ruleRequestTx, ruleViewResetCover}
-	propertyRules["C12"] = append(propertyRules["C12"], ruleCompletionNoticed)
+	propertyRules["C12"] = append(propertyRules["C12"], ruleCompletionNoticed, ruleOwnAnswerComplete)
 	propertyExplain["C12"] = "STALE-MISSING: an index derived from MissingTransactions is never used on that slice after a call that may rewrite it; M-ANSWER: in the function recording a delivered transaction every path on which all transactions are present and the node is a non-watch-only backup ends in a PrepareResponse send or in the verifier's false result, whose summary must send a ChangeView; G-REJECT-SET: OnTransaction rejects a delivery only for the reasons the property allows; P-REQUEST: RequestTx receives the missing list. Interleavings with double deliveries and timing against the view timer are not decided."
 }
 
@@ -955,6 +955,72 @@ func ruleCompletionNoticed(c *RC) *RuleResult {
 	}
 	if r.Sites == 0 {
 		r.unresolved("stores into the transaction table")
+	}
+	return r
+}
+
+// G-OWN-ANSWER-COMPLETE (C12): OnTransaction turns a delivery away when the node's own PrepareResponse, PreCommit or
+// Commit is stored ("it has answered, it needs nothing more"). That reason is sound only while "own answer stored ⇒ all
+// transactions of the proposal present" holds. The node's own sends keep it (they come after the block check). A handler
+// that stores a RECEIVED payload into its sender's slot keeps it only if the sender cannot be the node itself or all
+// transactions are known to be there: a node that restarted gets its own earlier answer back inside a recovery message
+// while the transactions are still missing, and from then on every requested transaction is dropped.
+func ruleOwnAnswerComplete(c *RC) *RuleResult {
+	r := &RuleResult{Rule: "G-OWN-ANSWER-COMPLETE", Kind: "GUARD", Doc: "a received response / pre-commit / commit is stored into its sender's slot only when the sender is known not to be this node, or all transactions of the proposal are present (the transaction entry rejects deliveries once the node's own answer is stored)"}
+	allTx := fAllTx().Atom
+	tables := []string{"ctx.PreparationPayloads", "ctx.PreCommitPayloads", "ctx.CommitPayloads"}
+	for _, tbl := range tables {
+		for _, ws := range c.writesTo(tbl) {
+			if ws.Store&KillNNSender == 0 || c.inEpoch(ws.Fn) {
+				continue
+			}
+			r.Sites++
+			bad := ""
+			for _, sn := range ws.Snaps {
+				if sn.Val != nil && sn.Val.K == KNil {
+					continue
+				}
+				if senderIsNotOwn(sn.F) {
+					continue
+				}
+				if v, known := sn.F.value(allTx); known && v {
+					continue
+				}
+				// a node that takes no part has no answer of its own to restore
+				if v, ok := sn.F.value(mkAtom("lt", tMyIndex, tZero)); ok && v {
+					continue
+				}
+				// the slot of the view's primary holds the proposal, not an answer
+				if sn.Idx != nil && sn.Idx.S == tPrimaryIndex.S {
+					continue
+				}
+				if v, ok := sn.F.value(mkAtom("eq", sn.Idx, tPrimaryIndex)); sn.Idx != nil && ok && v {
+					continue
+				}
+				bad = sn.Trail
+			}
+			// named by the handler's role (the kind of payload it serves), not by where the dispatch happens to live
+			name := ws.Fn.Name
+			hs := c.handlers()
+			var kinds []string
+			for k := range hs {
+				kinds = append(kinds, k)
+			}
+			sort.Strings(kinds)
+			for _, k := range kinds {
+				if h := hs[k]; h == ws.Fn || c.A.cluster(h)[ws.Fn] {
+					name = "handler:" + k
+				}
+			}
+			if bad == "" {
+				r.ok(fmt.Sprintf("%s: a payload stored into %s is not the node's own, or the transactions are there", name, tbl))
+			} else {
+				r.fail(name+"/own-answer-restored:"+strings.TrimPrefix(tbl, "ctx."), c.Prog.Pos(ws.Node), fmt.Sprintf("%s stores a received payload into its sender's slot of %s without knowing that the sender is another node or that all transactions are present (path {%s}): a restarted node gets its own earlier answer back in a recovery message while the proposal's transactions are missing, after which the transaction entry drops every requested transaction (\"already answered\") and the node can neither build the block nor leave the view", name, tbl, bad))
+			}
+		}
+	}
+	if r.Sites == 0 {
+		r.unresolved("stores of received payloads into per-validator tables")
 	}
 	return r
 }
